@@ -13,7 +13,7 @@ RULE = ("Valid calendar dates 1990-2029 x notations (d.m.yyyy, dd.mm.yyyy, d/m/y
         "with every month spelling of the frozen vocabulary) x optional clock part (HH:MM, at H:MM, "
         "h:MMpm, um H Uhr) x reference times 1985-2040. thorough: ALL 14 610 dates x all numeric "
         "notations and a rotating month-name notation, each under 2 reference times; quick: Hypothesis "
-        "sample. Month-name notations skip the years 2000/05/10/15/20/25 (they read as hh:mm with mm a "
+        "sample; both tiers: a boundary set (every 29 Feb 1992-2028, first and last day of every month of a leap, a non-leap and a 19xx year) x ALL notations x reference times in leap and non-leap years. Month-name notations skip the years 2000/05/10/15/20/25 (they read as hh:mm with mm a "
         "multiple of 5 - the documented military-time heuristic). Oracle: the written (y, m, d[, h, mi]); "
         "the same value for every reference time; hence all notations agree. Non-trivial = distinct "
         "(date, notation, clock) with day > 12, a single-digit field or February.")
@@ -147,8 +147,34 @@ def _quick_shard(arg):
     return acc
 
 
+def hard_dates():
+    out = [dt.date(y, 2, 29) for y in range(1992, 2029, 4)]
+    for y in (2019, 2024, 1999):
+        for m in range(1, 13):
+            out.append(dt.date(y, m, O.mdays(y, m)))
+            out.append(dt.date(y, m, 1))
+    return out
+
+
+HARD_REFS = [dt.datetime(2023, 3, 1, 10, 0), dt.datetime(2024, 2, 29, 23, 59, 59), dt.datetime(1995, 6, 30, 0, 0),
+             dt.datetime(2038, 12, 31, 12, 0)]
+
+
+def _hard_shard(arg):
+    pid, dates = arg
+    acc = core.Acc(pid)
+    for i, date in enumerate(dates):
+        names = G.MONTH_FORMS[date.month - 1]
+        for j, nt in enumerate(NUMERIC + ["yy"]):
+            do(acc, date, nt, None, CLOCKS[(i + j) % len(CLOCKS)], 14, 35, HARD_REFS, "boundary-dates")
+        for j, nt in enumerate(NAMED):
+            for nm in (names[0], names[(i + j) % len(names)]):
+                do(acc, date, nt, nm, CLOCKS[(i + j) % len(CLOCKS)], 14, 35, HARD_REFS, "boundary-dates")
+    return acc
+
+
 def run(ctx):
-    acc = core.Acc(ctx.pid)
+    acc = core.pmap_acc(ctx.pid, _hard_shard, [(ctx.pid, p) for p in core.chunks(hard_dates(), 16)])
     subs = []
     if ctx.thorough:
         dates = list(all_dates())
